@@ -1,7 +1,8 @@
 #!/bin/sh
 # check.sh <ID> <quick|thorough> [--replay <file>]  -- the only entry point registered in MANIFEST.json
 set -e
-cd /verif
+cd "$(dirname "$0")"
+export VERIF_DIR="$(pwd)"
 export GOFLAGS=-mod=mod GOPROXY=off GOSUMDB=off GOTOOLCHAIN=local
 if [ ! -x bin/vcheck ] || [ -n "$(find cmd internal go.mod -newer bin/vcheck -print -quit 2>/dev/null)" ]; then
   mkdir -p bin
